@@ -16,6 +16,7 @@ matches.
 
 import datetime
 import logging
+import os
 
 from collections import defaultdict
 
@@ -23,6 +24,10 @@ import numpy as np
 
 
 LOG = logging.getLogger("spowtd.classify")
+
+# Verification hook (inactive unless SPOWTD_VERIF=1): a callable that
+# picks which free storm proposes next in find_stable_matching
+VERIF_PROPOSER_CHOOSER = None
 
 
 def classify_intervals(
@@ -492,6 +497,10 @@ def find_stable_matching(storm_candidates, jump_preferences):
     matches = dict()
     while matchable_storms:
         storm = matchable_storms.pop()
+        if VERIF_PROPOSER_CHOOSER is not None and os.environ.get("SPOWTD_VERIF") == "1":
+            matchable_storms.add(storm)
+            storm = VERIF_PROPOSER_CHOOSER(sorted(matchable_storms))
+            matchable_storms.remove(storm)
         # Inefficient but safe
         assert storm not in matches.items()
         storm_is_free = True
